@@ -83,12 +83,16 @@ def canonBlocks (a : Arr α) : List (List Nat) × List (Blk α) :=
   let perm := lexsortNat a.qdata
   (pick a.qdata perm [], pick a.data perm ⟨[], []⟩)
 
-def arrToJson [Zero α] (sc : SC α) (a : Arr α) : Json :=
+/-- the dense form is computed by `toDenseFast`; for small tensors the specification `toDense` (the function the
+theorems are about) is evaluated as well and any difference is reported (`dense_spec_mismatch`) -/
+def arrToJson [Zero α] [DecidableEq α] (sc : SC α) (a : Arr α) : Json :=
   let (q, d) := canonBlocks a
-  obj [("mods", ofNatList a.mods), ("legs", ofList alegToJson a.legs), ("qtotal", ofIntList a.qtotal),
-       ("labels", ofList labelToJson a.labels), ("qdata", ofList ofNatList q),
-       ("blocks", ofList (denseToJson sc) d), ("sorted", a.qdataSorted),
-       ("dense", denseToJson sc a.toDenseFast)]
+  let fast := a.toDenseFast
+  let ok := if Dense.prod a.shape ≤ 48 then decide (a.toDense = fast) else true
+  obj ([("mods", ofNatList a.mods), ("legs", ofList alegToJson a.legs), ("qtotal", ofIntList a.qtotal),
+        ("labels", ofList labelToJson a.labels), ("qdata", ofList ofNatList q),
+        ("blocks", ofList (denseToJson sc) d), ("sorted", a.qdataSorted),
+        ("dense", denseToJson sc fast)] ++ (if ok then [] else [("dense_spec_mismatch", Json.bool true)]))
 
 def axOfJson (j : Json) : Except String Ax :=
   match j with
